@@ -587,6 +587,15 @@ def common_rewrites(ctx, sf, a, b, item_kind, opts):
                 ctx.fire("N6", sf, t.start, "Err(path.into())")
                 k = close + 1
                 continue
+        # N17: todo!() / unimplemented!() / unreachable!(..) / panic!(..) -> vx_panics(): a call whose precondition is `false`, so that
+        # reaching the macro is a proof obligation ("this point is never reached") instead of an unsupported construct
+        if t.kind == "id" and t.text in ("todo", "unimplemented", "unreachable", "panic") and toks[k + 1].text == "!" \
+                and toks[k + 2].text in ("(", "[", "{") and (k == 0 or toks[k - 1].text not in (".", "::")):
+            close = pair[k + 2]
+            edits.append(Edit(t.start, toks[close].end, "vx_panics()"))
+            ctx.fire("N17", sf, t.start, t.text + "!")
+            k = close + 1
+            continue
         # N6: log::x!(..) -> (); format!/anyhow!/… handled at listed sites via opts
         if t.kind == "id" and t.text == "log" and toks[k + 1].text == "::" and toks[k + 3].text == "!":
             close = pair[k + 4]
@@ -1436,6 +1445,22 @@ def site_rewrite(ctx, sf, it, rule, anchor, nth, ropts, what):
                   Edit(toks[body_open].end, toks[body_open].end, first, prio=-1),
                   Edit(toks[body_close].end, toks[body_close].end, " }")]
         ctx.fire("N15", sf, toks[k].start, f"for {var} in ({E}).chars()")
+    elif rule == "ARMBODY":
+        # the body of the match arm whose pattern is the anchor (`PAT =>`) is replaced by a stub expression (O1 for a whole arm):
+        # a block `{ .. }` or an expression up to the `,` that ends the arm
+        k = b - 1
+        if toks[k].text != "=>":
+            raise LostAnchor(f"{what}: ARMBODY anchor must end with `=>`")
+        j = k + 1
+        if toks[j].text == "{":
+            lo_b, hi_b = toks[j].start, toks[pair[j]].end
+        else:
+            q_ = j
+            while toks[q_].text != ",":
+                q_ = pair[q_] + 1 if toks[q_].text in ("(", "[", "{") else q_ + 1
+            lo_b, hi_b = toks[j].start, toks[q_ - 1].end
+        edits.append(Edit(lo_b, hi_b, ropts["call"].replace("~", " ")))
+        ctx.fire("O1", sf, lo_b, f"opaque match arm {anchor!r} -> {ropts['call']}")
     elif rule == "O1":
         # opaque statement: replace anchor..(through `;`) by a call to an external_body stub
         k = b
